@@ -1189,6 +1189,20 @@ def writeGraph(G, output_file, graph_type, file_format='autodetect'):
 #
 # In-house parsers
 #
+def _text_lines(inputfile):
+    """The lines of a text file, each one ended by a newline character
+
+    Lines end with LF, CR LF or CR, whatever the file object makes of
+    them: a file opened by name translates them all to LF, the
+    standard input and `io.StringIO` do not.
+    """
+    text = inputfile.read().replace('\r\n', '\n').replace('\r', '\n')
+    lines = text.split('\n')
+    if lines[-1] == '':
+        lines.pop()
+    return [line + '\n' for line in lines]
+
+
 def _kthlist_parse(inputfile):
     """Read a graph from file, and produce the datas.
 
@@ -1202,7 +1216,7 @@ def _kthlist_parse(inputfile):
     size = -1
     name = ""
 
-    for i, l in enumerate(inputfile.readlines()):
+    for i, l in enumerate(_text_lines(inputfile)):
 
         # first non empty comment line is the graph name
         # must be before the graph size
@@ -1393,7 +1407,7 @@ def _read_graph_dimacs_format(inputfile, graph_class):
     m_cnt = 0
 
     # is the input topologically sorted?
-    for i, l in enumerate(inputfile.readlines()):
+    for i, l in enumerate(_text_lines(inputfile)):
 
         l = l.strip()
 
@@ -1472,11 +1486,12 @@ def _read_graph_matrix_format(inputfile):
 
         num_buffer = []
         line_cnt = 0
+        lines = iter(_text_lines(inputfile))
 
         while True:
             if len(num_buffer) == 0:
 
-                line = inputfile.readline()
+                line = next(lines, '')
 
                 if len(line) == 0:
                     return
